@@ -201,7 +201,7 @@ def run(res):
     exe = build.fastpasta("rel")
     build.harness()
     wd = scratch("c06")
-    n = 48 if res.tier == "quick" else 1500
+    n = 48 if res.tier == "quick" else 4000
     comp = nont = 0
     for o in pmap(one_case, [(exe, wd, res.seed, c, res.tier) for c in range(n)]):
         res.evaluations += 1
